@@ -194,12 +194,12 @@ enum State {
 
 /// independent GF(2) elimination over u64 words (rank oracle)
 #[derive(Clone)]
-struct Gf2 {
+pub struct Gf2 {
     rows: Vec<Vec<u64>>, // echelon rows, each with a distinct leading bit
     words: usize,
 }
 impl Gf2 {
-    fn new(bits: usize) -> Self {
+    pub fn new(bits: usize) -> Self {
         Gf2 { rows: vec![], words: (bits + 63) / 64 + 1 }
     }
     fn lead(r: &[u64]) -> Option<usize> {
@@ -210,7 +210,7 @@ impl Gf2 {
         }
         None
     }
-    fn add(&mut self, mut r: Vec<u64>) -> bool {
+    pub fn add(&mut self, mut r: Vec<u64>) -> bool {
         r.resize(self.words, 0);
         loop {
             let Some(l) = Self::lead(&r) else { return false };
@@ -224,7 +224,7 @@ impl Gf2 {
             }
         }
     }
-    fn rank(&self) -> usize {
+    pub fn rank(&self) -> usize {
         self.rows.len()
     }
 }
